@@ -262,11 +262,10 @@ Apply(fs, inp, i) == CASE Mode = "archive" -> ApplyMember(fs, inp, i, Target)
 TouchedName(fs, n) == LET par == Walk(Target, Front(n), fs, {}, Fuel, FALSE)
                       IN IF ~par.ok THEN {} ELSE Touched(fs, Loc(par.p, Last(n)))
 Late(fs, late) == UNION {TouchedName(fs, n) : n \in late}
-(* After the manifest entries the deployment stores the workflow definition as conf/flowir_package.yaml (conf/dsl.yaml   *)
-(* for a package in the DSL format) -- through a symbolic link, if an entry `conf/<that name>: x:link` made one: the     *)
-(* directory   *)
-(* conf is made unless the manifest has an entry literally called conf (then whatever that entry put there is used: a    *)
-(* copied folder -- or a LINK to the source folder, through which the file is then written).                            *)
+(* After the manifest entries the deployment stores the workflow definition as conf/flowir_package.yaml (conf/dsl.yaml    *)
+(* for a package in the DSL format): the directory conf is made unless the manifest has an entry literally called conf   *)
+(* (then whatever that entry put there is used: a copied folder -- or a LINK to the source folder), and the file is      *)
+(* written with open(.., "wb"), i.e. THROUGH a symbolic link that an entry `conf/<that name>: x:link` put in its place.  *)
 ConfDir == Append(Target, "conf")
 Epilogue(fs, inp) ==
     IF Mode # "manifest" THEN Res(TRUE, fs, {})
